@@ -8,7 +8,7 @@
    transformation() followed by conversion_surface_params(). *)
 From Coq Require Import List ZArith Bool Reals Lra.
 From T4V Require Import Base.Scalar C04.Vec C04.Model C04.Spec C04.ProofsFrame C04.ProofsConvert
-  C04.ProofsQuad C04.ProofsSurf C04.ProofsMatrix C04.ProofsCard C04.ProofsTorus C04.ProofsMatrix5 C04.ProofsCompose C04.ProofsAdjust.
+  C04.ProofsQuad C04.ProofsSurf C04.ProofsMatrix C04.ProofsCard C04.ProofsTorus C04.ProofsMatrix5 C04.ProofsCompose C04.ProofsAdjust C04.ProofsTree.
 Import ListNotations.
 Open Scope R_scope.
 
@@ -293,6 +293,38 @@ Theorem C04_lattice_filltr_trcl : forall (o : R3) (b : M3 R) (transl : R3),
     forall p, to_main o' b' p = translate transl (to_main o b p).
 Proof. exact lattice_filltr_trcl. Qed.
 Print Assumptions C04_lattice_filltr_trcl.
+
+(* ---------- a whole TRCL cell (pot_transform / apply_trcl) ---------- *)
+(* [region cellsem tb t p]: p is in the region of expression t (signed surface leaves read in the
+   surface dictionary tb: -n inside every part, +n outside some part; complement nodes through
+   cellsem).  A cell whose expression mentions surfaces only ([surf_only], numbers within the
+   dictionary) and carries one TRCL (O,B): the walk gives every leaf a NEW surface, keeps the old
+   dictionary entries, and the new expression at the moved point is the old one at the original point *)
+Theorem C04_trcl_cell : forall (o : R3) (b : M3 R) cellsem (t t' : gtree) (st st' : pstate),
+  rows_orthonormal b -> surf_only (fst st) t = true -> (0 <= fst st)%Z ->
+  table_wf (snd st) -> keys_le (fst st) (snd st) ->
+  apply_trcl RS [tr12 o b] t st = Ok (t', st') ->
+  (forall p', region cellsem (snd st') t' (to_main o b p') <-> region cellsem (snd st) t p') /\
+  (forall j, (j <= fst st)%Z -> lookup j (snd st') = lookup j (snd st)) /\ table_wf (snd st').
+Proof. exact trcl_cell. Qed.
+Print Assumptions C04_trcl_cell.
+
+(* one part of a dictionary entry: transformation() obeys the interface law for every kind
+   (frames, GQ, SQ) ... *)
+Theorem C04_transformation_law : forall (o : R3) (b : M3 R) (s : msurf R),
+  rows_orthonormal b -> part_wf s ->
+  exists s', transformation RS (tr12 o b) s = Ok s' /\ part_wf s' /\
+    forall p', (mneg s' (to_main o b p') <-> mneg s p') /\ (mpos s' (to_main o b p') <-> mpos s p').
+Proof. exact transformation_law. Qed.
+Print Assumptions C04_transformation_law.
+
+(* ... and its conversion writes surfaces selecting the same two regions (plane, sphere,
+   cylinder, cone with 0/1/2 sheets, GQ; unit axes) *)
+Theorem C04_convert_law : forall (s : msurf R), conv_wf s ->
+  exists coll, convert RS s = Ok coll /\
+    forall P, (mneg s P <-> coll_neg coll P) /\ (mpos s P <-> coll_pos coll P).
+Proof. exact convert_law. Qed.
+Print Assumptions C04_convert_law.
 
 (* non-vacuity: the quarter turn about z used by the corpus deck
    TRCL=(1 0 0  0 1 0  -1 0 0  0 0 1) satisfies every hypothesis on B, and moves
